@@ -223,8 +223,23 @@ func (c *osstopC) scenario(sig, timeout int, cmdKind string, parentOnly bool, tr
 			_ = os.RemoveAll(wd)
 		}
 		t0 = time.Now()
-		s := map[string]syscall.Signal{"binTERM": syscall.SIGTERM, "binINT": syscall.SIGINT, "binHUP": syscall.SIGHUP}[via]
-		_ = binCmd.Process.Signal(s)
+		sigOf := map[string]syscall.Signal{"TERM": syscall.SIGTERM, "INT": syscall.SIGINT, "HUP": syscall.SIGHUP}
+		if strings.HasPrefix(via, "bin2") {
+			// a second signal arrives while the shutdown started by the first is still under way
+			// (Ctrl+C twice, a closing terminal after SIGTERM): it must not cut the shutdown short
+			_ = binCmd.Process.Signal(syscall.SIGTERM)
+			second := sigOf[strings.TrimPrefix(via, "bin2")]
+			go func() {
+				time.Sleep(250 * time.Millisecond)
+				select {
+				case <-runDone:
+				default:
+					_ = binCmd.Process.Signal(second)
+				}
+			}()
+		} else {
+			_ = binCmd.Process.Signal(sigOf[strings.TrimPrefix(via, "bin")])
+		}
 		go func() { <-runDone; close(stopReturned) }()
 	} else {
 		prj, err := loader.Load(&loader.LoaderOptions{FileNames: []string{file}, IsInternalLoader: true})
@@ -420,6 +435,10 @@ func (c *osstopC) Gen(r *rand.Rand, tier string, emit func(string)) {
 		n = 320
 	}
 	ops := []string{}
+	if os.Getenv("PC_BIN") != "" {
+		// directed: a second signal to the binary while the shutdown waits for a trapping member's timeout
+		ops = append(ops, "os 15 1 - 0 p:i:- bin2HUP", "os 15 2 - 0 p::-,c:i:p bin2INT", "os 0 1 - 0 p:i:-,c::p bin2TERM")
+	}
 	seen := map[string]bool{}
 	for len(ops) < n {
 		// SIGINT is left out as a configured signal: sh starts background children with SIGINT ignored
@@ -434,7 +453,7 @@ func (c *osstopC) Gen(r *rand.Rand, tier string, emit func(string)) {
 		}
 		po := r.Intn(4) == 0
 		tree := osTrees[r.Intn(len(osTrees))]
-		via := []string{"api", "api", "shutdown", "binTERM", "binINT", "binHUP"}[r.Intn(6)]
+		via := []string{"api", "api", "shutdown", "binTERM", "binINT", "binHUP", "bin2HUP", "bin2INT", "bin2TERM"}[r.Intn(9)]
 		if os.Getenv("PC_BIN") == "" && strings.HasPrefix(via, "bin") {
 			via = "shutdown"
 		}
